@@ -99,90 +99,83 @@ def envelope(data, sign):
     return data[85:], problems
 
 
-def check_signable(cls, plain_cls, case, res, build, typed):
-    """Shared by claims and supports.  build(obj) applies the case; typed(obj) -> accessor root."""
+def effective(case):
+    """(ops, sign) of the object at the end of the case's history: the first op list plus the op lists of
+    every later stage; a stage may keep, clear or replace the signature envelope."""
+    ops, sign = list(case['ops']), case.get('sign')
+    for st in case.get('then', ()):
+        ops += st['ops']
+        s = st.get('sign', 'keep')
+        sign = sign if s == 'keep' else None if s == 'clear' else s
+    return ops, sign
+
+
+def schema_classes(mode):
+    if mode == 'claim':
+        from lbry.schema.claim import Claim
+        from lbry.schema.types.v2.claim_pb2 import Claim as ClaimMessage
+        return Claim, ClaimMessage
+    from lbry.schema.support import Support
+    from lbry.schema.types.v2.support_pb2 import Support as SupportMessage
+    return Support, SupportMessage
+
+
+def typed_root(obj, case):
+    return getattr(obj, case['type']) if case['mode'] == 'claim' and case['type'] else obj
+
+
+def apply_stage(obj, case, ops, current):
+    from vf import c16_model as M
+    if case['mode'] == 'claim':
+        if case['type'] is not None:
+            target = getattr(obj, case['type'])
+            for op in ops:
+                current[0] = op
+                M.apply_ops(target, [op])
+    else:
+        for op in ops:
+            current[0] = op
+            setattr(obj, op[1], op[2])
+    current[0] = None
+
+
+def set_envelope(obj, sign):
+    obj.signing_channel_id = sign['channel_id']
+    obj.signature = bytes.fromhex(sign['sig'])
+
+
+def expected_content(case, ops):
+    """-> (content of the plain parse, accessor expectations) for the object after `ops`."""
+    from vf import c16_model as M
+    if case['mode'] == 'claim':
+        content = M.model_of(dict(case, ops=ops)).content()
+        return content, M.expected_reads(case['type'], content)
+    last = {'emoji': '', 'comment': ''}
+    for _, k, v in ops:
+        last[k] = v
+    return {(k,): v for k, v in last.items() if v != ''}, [(k, v, 'eq') for k, v in last.items()]
+
+
+def read_accessors(root, reads, res, bad, subs=None, kind='readback', **sigextra):
+    """Compare every typed accessor of a live object with its expectation.  subs: sub-object wrappers
+    obtained earlier (reads whose path starts with such a name go through the old wrapper)."""
     from decimal import Decimal
     from vf import c16_model as M
-    res.count('evaluations')
-    rep = {'mode': case['mode'], 'case': case}
-    typ = case.get('type')
-    sig0 = {'object': case['mode'], 'type': typ}
-
-    def bad(kind, what, **extra):
-        sig = dict(sig0, kind=kind, **extra)
-        if kind in ('readback', 'read-raises', 'envelope-field', 'envelope-layout'):
-            sig.pop('type')          # the accessor / envelope field names the call site (shared code)
-        res.violation(sig, f'{what}  [case ops={json.dumps(case["ops"])[:300]}]', rep)
-
-    obj = cls()
-    current = [None]
-    try:
-        build(obj, current)
-        if case.get('sign'):
-            obj.signing_channel_id = case['sign']['channel_id']
-            obj.signature = bytes.fromhex(case['sign']['sig'])
-        data = obj.to_bytes()
-    except Exception as e:   # noqa - judged by the property: representable input must be accepted
-        op = current[0] or ['serialise', '', None]
-        return bad('set-raises', f'{op[0]} {op[1]} {json.dumps(op[2])[:120]} raised {type(e).__name__}: {e}',
-                   exc=type(e).__name__, op=f'{op[0]}:{generic(str(op[1]))}')
-    if case.get('sign'):
-        res.witness('signed_envelope_round_trip')
-    payload, problems = envelope(data, case.get('sign'))
-    for p in problems:
-        bad('envelope-layout', p, problem=p)
-    # (1) parse back, equal object, same bytes
-    try:
-        back = cls.from_bytes(data)
-        again = back.to_bytes()
-    except Exception as e:   # noqa
-        return bad('decode-raises', f'from_bytes(to_bytes()) raised {type(e).__name__}: {e}', exc=type(e).__name__)
-    if again != data:
-        bad('reserialise-differs', f'from_bytes(b).to_bytes() != b ({len(again)} vs {len(data)} bytes)',
-            signed=bool(case.get('sign')))
-    if back.message != obj.message:
-        bad('message-differs', 'decoded message != original message')
-    exp_sig = bytes.fromhex(case['sign']['sig']) if case.get('sign') else None
-    exp_hash = bytes.fromhex(case['sign']['channel_id'])[::-1] if case.get('sign') else None
-    exp_id = case['sign']['channel_id'] if case.get('sign') else None
-    for name, got, exp in (('signature', back.signature, exp_sig), ('signing_channel_hash', back.signing_channel_hash, exp_hash),
-                           ('signing_channel_id', back.signing_channel_id, exp_id), ('is_signed', back.is_signed, exp_sig is not None)):
-        if got != exp or type(got) is not type(exp):
-            bad('envelope-field', f'{name} reads {got!r:.90}, set {exp!r:.90}', field=name)
-    # (2) plain protobuf parse of the payload == model of what was set
-    model = M.model_of(case) if case['mode'] == 'claim' else None
-    try:
-        plain = plain_cls.FromString(payload)
-    except Exception as e:   # noqa
-        return bad('payload-not-protobuf', f'plain parse of payload raised {type(e).__name__}', exc=type(e).__name__)
-    flat = M.flatten(plain)
-    if case['mode'] == 'claim':
-        content = model.content()
-        if plain.WhichOneof('type') != typ:
-            bad('claim-type', f'plain parse says type {plain.WhichOneof("type")!r}, built {typ!r}')
-        if typ is not None and back.claim_type != typ:
-            bad('claim-type-accessor', f'claim_type reads {back.claim_type!r}, built {typ!r}')
-    else:
-        content = {(k,): v for k, v in case['expect'].items() if v != ''}
-    if flat != content:
-        diff = sorted(set(k for k in set(flat) | set(content) if flat.get(k) != content.get(k)))
-        bad('plain-parse-differs', f'plain parse differs from what was set at {diff[:3]}: '
-            f'parsed {[flat.get(k) for k in diff[:3]]!r:.200} expected {[content.get(k) for k in diff[:3]]!r:.200}',
-            field='.'.join(diff[0]))
-    # (3) typed accessors of the decoded object
-    root = typed(back)
-    reads = M.expected_reads(typ, content) if case['mode'] == 'claim' else \
-        [(k, v, 'eq') for k, v in case['expect'].items()]
     for path, exp, cmp in reads:
         res.count('accessor_reads')
         try:
-            got = M.read(root, path)
+            first, _, rest = path.partition('.')
+            if subs and first in subs and rest:
+                got = M.read(subs[first], rest)
+            else:
+                got = M.read(root, path)
             if cmp == 'len':
                 got = got()
             elif cmp == 'list':
                 got = list(got)
         except Exception as e:   # noqa
-            bad('read-raises', f'{path} raised {type(e).__name__}: {e}', accessor=generic(path), exc=type(e).__name__)
+            bad('read-raises' if kind == 'readback' else kind, f'{path} raised {type(e).__name__}: {e}',
+                accessor=generic(path), exc=type(e).__name__, **sigextra)
             continue
         if cmp == 'dec':
             ok = isinstance(got, Decimal) and got == exp
@@ -201,48 +194,266 @@ def check_signable(cls, plain_cls, case, res, build, typed):
                 res.tally('interpretation_only:unset_field_reads_as_other_empty_type:' + generic(path))
                 ok = True
         if not ok:
-            bad('readback', f'{path} reads {got!r:.120}, expected {exp!r:.120}', accessor=generic(path),
-                value_class=value_class(path, exp, got))
+            bad(kind, f'{path} reads {got!r:.120}, expected {exp!r:.120}', accessor=generic(path),
+                value_class=value_class(path, exp, got), **sigextra)
+
+
+def check_signable(case, res):
+    """Claims and supports.  History of a case: assemble through the metadata API (+ envelope), serialise;
+    then for every stage in case['then']: continue on the object parsed from those bytes ('parse') or on
+    the same live object that was just serialised ('same'), apply more metadata-API calls, optionally clear /
+    replace the envelope, serialise again.  The final bytes and the object parsed from them are judged
+    against the model of ALL operations: serialisation reflects the live object, whatever its origin."""
+    res.count('evaluations')
+    cls, plain_cls = schema_classes(case['mode'])
+    rep = {'mode': case['mode'], 'case': case}
+    typ = case.get('type')
+    stages = case.get('then', ())
+    sig0 = {'object': case['mode'], 'type': typ}
+    if stages:
+        sig0['history'] = '+'.join(st['via'] for st in stages)
+
+    def bad(kind, what, **extra):
+        sig = dict(sig0, kind=kind, **extra)
+        if kind in ('readback', 'read-raises', 'envelope-field', 'envelope-layout'):
+            sig.pop('type')          # the accessor / envelope field names the call site (shared code)
+        res.violation(sig, f'{what}  [case ops={json.dumps(case["ops"])[:300]}'
+                      + (f' then={json.dumps(stages)[:300]}' if stages else '') + ']', rep)
+
+    obj = cls()
+    current = [None]
+    sign = case.get('sign')
+    try:
+        apply_stage(obj, case, case['ops'], current)
+        if sign:
+            set_envelope(obj, sign)
+        data = obj.to_bytes()
+        for i, st in enumerate(stages):
+            res.count('history_stages')
+            if st['via'] == 'parse':
+                nxt = cls.from_bytes(data)
+                if nxt.to_bytes() != data:
+                    bad('reserialise-differs', f'stage {i}: from_bytes(b).to_bytes() != b before any edit', signed=bool(sign))
+            else:
+                nxt = obj
+            apply_stage(nxt, case, st['ops'], current)
+            s = st.get('sign', 'keep')
+            if s == 'clear':
+                current[0] = ['clear_signature', '', None]
+                nxt.clear_signature()
+                sign = None
+            elif s != 'keep':
+                current[0] = ['sign', '', None]
+                set_envelope(nxt, s)
+                sign = s
+            current[0] = None
+            obj = nxt
+            data = obj.to_bytes()
+            res.witness(f'history_{st["via"]}_then_edit' + ('_signed' if sign else ''))
+    except Exception as e:   # noqa - judged by the property: representable input must be accepted
+        op = current[0] or ['serialise', '', None]
+        return bad('set-raises', f'{op[0]} {op[1]} {json.dumps(op[2])[:120]} raised {type(e).__name__}: {e}',
+                   exc=type(e).__name__, op=f'{op[0]}:{generic(str(op[1]))}')
+    ops, eff_sign = effective(case)
+    assert eff_sign == sign
+    if sign:
+        res.witness('signed_envelope_round_trip')
+    payload, problems = envelope(data, sign)
+    for p in problems:
+        bad('envelope-layout', p, problem=p)
+    try:
+        if obj.to_message_bytes() != payload:
+            bad('message-bytes', 'to_message_bytes() is not the payload inside to_bytes()')
+    except Exception as e:   # noqa
+        bad('message-bytes', f'to_message_bytes() raised {type(e).__name__}')
+    # (1) parse back, equal object, same bytes
+    try:
+        back = cls.from_bytes(data)
+        again = back.to_bytes()
+    except Exception as e:   # noqa
+        return bad('decode-raises', f'from_bytes(to_bytes()) raised {type(e).__name__}: {e}', exc=type(e).__name__)
+    if again != data:
+        bad('reserialise-differs', f'from_bytes(b).to_bytes() != b ({len(again)} vs {len(data)} bytes)', signed=bool(sign))
+    if back.message != obj.message:
+        bad('message-differs', 'decoded message != the live message that was serialised')
+    exp_sig = bytes.fromhex(sign['sig']) if sign else None
+    exp_hash = bytes.fromhex(sign['channel_id'])[::-1] if sign else None
+    exp_id = sign['channel_id'] if sign else None
+    for name, got, exp in (('signature', back.signature, exp_sig), ('signing_channel_hash', back.signing_channel_hash, exp_hash),
+                           ('signing_channel_id', back.signing_channel_id, exp_id), ('is_signed', back.is_signed, exp_sig is not None)):
+        if got != exp or type(got) is not type(exp):
+            bad('envelope-field', f'{name} reads {got!r:.90}, set {exp!r:.90}', field=name)
+    # (2) plain protobuf parse of the payload == model of everything that was set
+    from vf import c16_model as M
+    try:
+        plain = plain_cls.FromString(payload)
+    except Exception as e:   # noqa
+        return bad('payload-not-protobuf', f'plain parse of payload raised {type(e).__name__}', exc=type(e).__name__)
+    flat = M.flatten(plain)
+    content, reads = expected_content(case, ops)
+    if case['mode'] == 'claim':
+        if plain.WhichOneof('type') != typ:
+            bad('claim-type', f'plain parse says type {plain.WhichOneof("type")!r}, built {typ!r}')
+        if typ is not None and back.claim_type != typ:
+            bad('claim-type-accessor', f'claim_type reads {back.claim_type!r}, built {typ!r}')
+    if flat != content:
+        diff = sorted(set(k for k in set(flat) | set(content) if flat.get(k) != content.get(k)))
+        bad('plain-parse-differs', f'plain parse differs from what was set at {diff[:3]}: '
+            f'parsed {[flat.get(k) for k in diff[:3]]!r:.200} expected {[content.get(k) for k in diff[:3]]!r:.200}',
+            field='.'.join(diff[0]))
+    # (3) typed accessors of the decoded object (and, after a history, of the live edited object too)
+    read_accessors(typed_root(back, case), reads, res, bad)
+    if stages:
+        read_accessors(typed_root(obj, case), reads, res, bad, kind='live-readback')
     return data
 
 
+def case_key(case):
+    return (case['mode'], case.get('type'), json.dumps(case['ops'], sort_keys=True), json.dumps(case.get('sign')),
+            json.dumps(case.get('then', []), sort_keys=True))
+
+
 def check_claim(case, res):
-    from lbry.schema.claim import Claim
-    from lbry.schema.types.v2.claim_pb2 import Claim as ClaimMessage
-    from vf import c16_model as M
     case = dict(case, mode='claim')
-    typ = case['type']
-
-    def build(claim, current):
-        if typ is not None:
-            target = getattr(claim, typ)
-            for op in case['ops']:
-                current[0] = op
-                M.apply_ops(target, [op])
-            current[0] = None
-
-    data = check_signable(Claim, ClaimMessage, case, res, build, lambda c: getattr(c, typ) if typ else c)
-    if case['ops'] or case.get('sign'):
-        res.distinct_add('nontrivial', ('claim', typ, json.dumps(case['ops'], sort_keys=True), json.dumps(case.get('sign'))))
+    data = check_signable(case, res)
+    if case['ops'] or case.get('sign') or case.get('then'):
+        res.distinct_add('nontrivial', case_key(case))
     return data
 
 
 def check_support(case, res):
-    from lbry.schema.support import Support
-    from lbry.schema.types.v2.support_pb2 import Support as SupportMessage
     case = dict(case, mode='support', type='support')
-    case['ops'] = [['str', k, v] for k, v in case['set'].items()]
-    case['expect'] = {'emoji': case['set'].get('emoji', ''), 'comment': case['set'].get('comment', '')}
+    if 'set' in case:       # older replay files
+        case['ops'] = [['str', k, v] for k, v in case.pop('set').items()]
+    check_signable(case, res)
+    if case['ops'] or case.get('sign') or case.get('then'):
+        res.distinct_add('nontrivial', case_key(case))
 
-    def build(s, current):
-        for k, v in case['set'].items():
-            current[0] = ['str', k, v]
-            setattr(s, k, v)
-        current[0] = None
 
-    check_signable(Support, SupportMessage, case, res, build, lambda s: s)
-    if case['set'] or case.get('sign'):
-        res.distinct_add('nontrivial', ('support', json.dumps(case['set'], sort_keys=True), json.dumps(case.get('sign'))))
+# ---- objects do not share state ------------------------------------------------------------------
+SUB_OBJECTS = ('fee', 'source', 'thumbnail', 'cover', 'tags', 'languages', 'locations', 'claims', 'featured',
+               'reference', 'image', 'video', 'audio')
+
+
+def check_group(group, res):
+    """group = {'cases': [case, ...]} with claim / support / purchase cases.  All objects are assembled and
+    parsed one after another and kept alive (with the sub-object wrappers obtained while each was the
+    newest); only after the last one exists every object is read back: bytes, typed accessors (through fresh
+    and through the early wrappers), plain parse.  Then every schema class is instantiated without arguments
+    and must be empty."""
+    from vf import c16_model as M
+    from lbry.schema.claim import Claim, Stream, Channel, Repost, Collection
+    from lbry.schema.support import Support
+    from lbry.schema.purchase import Purchase
+    from lbry.schema.types.v2.purchase_pb2 import Purchase as PurchaseMessage
+    res.count('evaluations')
+    res.count('live_object_groups')
+    rep = {'mode': 'group', 'group': group}
+    kinds = [c['mode'] if c['mode'] != 'claim' else c['type'] for c in group['cases']]
+    sig0 = {'object': 'group', 'kinds': '+'.join(sorted(set(map(str, kinds))))}
+
+    def bad(kind, what, **extra):
+        res.violation(dict(sig0, kind=kind, **extra), f'{what}  [group of {len(kinds)}: {kinds}]', rep)
+
+    live = []
+    current = [None]
+    try:
+        for case in group['cases']:
+            if case['mode'] == 'purchase':
+                built = Purchase(case['claim_id']) if case['how'] == 'ctor' else Purchase()
+                if case['how'] == 'claim_id':
+                    built.claim_id = case['claim_id']
+                elif case['how'] == 'claim_hash':
+                    built.claim_hash = bytes.fromhex(case['claim_id'])[::-1]
+                data = built.to_bytes()
+                parsed = Purchase.from_bytes(data)
+                live.append((case, built, parsed, data, {}, {}))
+                continue
+            cls, _ = schema_classes(case['mode'])
+            built = cls()
+            apply_stage(built, case, case['ops'], current)
+            if case.get('sign'):
+                set_envelope(built, case['sign'])
+            data = built.to_bytes()
+            parsed = cls.from_bytes(data)
+            subs = []
+            for o in (built, parsed):
+                root = typed_root(o, case)
+                subs.append({n: getattr(root, n) for n in SUB_OBJECTS
+                             if case['mode'] == 'claim' and case['type'] and hasattr(type(root), n)})
+            live.append((case, built, parsed, data, subs[0], subs[1]))
+    except Exception as e:   # noqa
+        return bad('set-raises', f'assembling the group raised {type(e).__name__}: {e}', exc=type(e).__name__)
+    # ... all objects exist now; read every one of them back
+    for idx, (case, built, parsed, data, subs_built, subs_parsed) in enumerate(live):
+        kind_name = kinds[idx]
+        for origin, o, subs in (('built', built, subs_built), ('parsed', parsed, subs_parsed)):
+            res.count('live_objects_read')
+            try:
+                now = o.to_bytes()
+            except Exception as e:   # noqa
+                bad('live-object-changed', f'object {idx} ({kind_name}, {origin}) to_bytes() raised {type(e).__name__}',
+                    member=kind_name, origin=origin)
+                continue
+            if now != data:
+                bad('live-object-changed', f'object {idx} ({kind_name}, {origin}) serialises differently after later objects '
+                    f'were created: {now.hex()[:80]} != {data.hex()[:80]}', member=kind_name, origin=origin)
+            if case['mode'] == 'purchase':
+                exp_hash = bytes.fromhex(case['claim_id'])[::-1]
+                if o.claim_id != case['claim_id'] or o.claim_hash != exp_hash:
+                    bad('live-readback', f'object {idx} (purchase, {origin}) claim_id reads {o.claim_id!r}, set {case["claim_id"]!r}',
+                        member='purchase', origin=origin, accessor='claim_id')
+                if PurchaseMessage.FromString(now[1:]).claim_hash != exp_hash:
+                    bad('live-plain-parse', f'object {idx} (purchase, {origin}) bytes carry another claim reference',
+                        member='purchase', origin=origin)
+                continue
+            content, reads = expected_content(case, case['ops'])
+
+            def bad_member(kind, what, **extra):
+                bad(kind, f'object {idx} ({kind_name}, {origin}): {what}', member=kind_name, origin=origin, **extra)
+
+            read_accessors(typed_root(o, case), reads, res, bad_member, kind='live-readback')
+            if subs:
+                read_accessors(typed_root(o, case), [r for r in reads if r[0].partition('.')[0] in subs], res, bad_member,
+                               subs=subs, kind='live-readback-early-wrapper')
+            exp_sig = bytes.fromhex(case['sign']['sig']) if case.get('sign') else None
+            if o.signature != exp_sig or o.signing_channel_id != (case['sign']['channel_id'] if case.get('sign') else None):
+                bad_member('live-envelope', f'envelope reads {o.signature!r:.40} / {o.signing_channel_id!r}')
+    # a fresh object of every class is empty
+    fresh = [('Claim', Claim, b'\x00'), ('Support', Support, b'\x00'), ('Purchase', Purchase, b'P'),
+             ('Stream', lambda: Stream().claim, b'\x00\x0a\x00'), ('Channel', lambda: Channel().claim, b'\x00\x12\x00'),
+             ('Collection', lambda: Collection().claim, b'\x00\x1a\x00'), ('Repost', lambda: Repost().claim, b'\x00\x22\x00')]
+    for name, make, exp in fresh:
+        res.count('fresh_objects_read')
+        try:
+            got = make().to_bytes()
+        except Exception as e:   # noqa
+            got = f'<{type(e).__name__}: {e}>'
+        if got != exp:
+            bad('fresh-object-not-empty', f'{name}() created after other objects serialises to {got!r:.80}, expected {exp!r}',
+                member=name)
+    for typ, cls_ in (('stream', Stream), ('channel', Channel), ('repost', Repost), ('collection', Collection)):
+        def bad_fresh(kind, what, **extra):
+            bad('fresh-object-not-empty', f'{cls_.__name__}(): {what}', member=cls_.__name__, **extra)
+        try:
+            fresh_typed = cls_()
+        except Exception as e:   # noqa
+            bad('fresh-object-not-empty', f'{cls_.__name__}() raised {type(e).__name__}: {e}', member=cls_.__name__)
+            continue
+        read_accessors(fresh_typed, M.expected_reads(typ, {}), res, bad_fresh, kind='fresh-object-not-empty')
+    try:
+        s, p = Support(), Purchase()
+        if s.emoji != '' or s.comment != '' or s.signature is not None or s.signing_channel_hash is not None:
+            bad('fresh-object-not-empty', f'Support() reads emoji={s.emoji!r} comment={s.comment!r}', member='Support')
+        if p.claim_hash != b'' or p.claim_id != '':
+            bad('fresh-object-not-empty', f'Purchase() reads claim_id={p.claim_id!r}', member='Purchase')
+        c = Claim()
+        if c.claim_type is not None or c.signature is not None or c.signing_channel_hash is not None:
+            bad('fresh-object-not-empty', f'Claim() has type {c.claim_type!r} / a signature', member='Claim')
+    except Exception as e:   # noqa
+        bad('fresh-object-not-empty', f'reading fresh objects raised {type(e).__name__}: {e}', member='fresh')
+    res.distinct_add('nontrivial', ('group', json.dumps(group, sort_keys=True)))
+    res.witness('live_object_group_with_%d_or_more_members' % min(3, len(kinds)))
 
 
 def check_purchase(case, res):
@@ -279,8 +490,21 @@ def check_purchase(case, res):
         bad('plain-parse-differs', f'plain parse claim_hash {plain.claim_hash.hex()} != reversed id {exp_hash.hex()}')
     if back.claim_id != cid or back.claim_hash != exp_hash:
         bad('readback', f'claim_id reads {back.claim_id!r}, claim_hash {back.claim_hash.hex()}')
-    if cid:
-        res.distinct_add('nontrivial', ('purchase', how, cid))
+    if case.get('then_id') is not None:      # history: edit the parsed object, serialise again
+        res.count('history_stages')
+        cid2 = case['then_id']
+        try:
+            back.claim_id = cid2
+            data2 = back.to_bytes()
+            back2 = Purchase.from_bytes(data2)
+        except Exception as e:   # noqa
+            return bad('raises', f'editing a parsed purchase raised {type(e).__name__}: {e}', exc=type(e).__name__)
+        if PurchaseMessage.FromString(data2[1:]).claim_hash != bytes.fromhex(cid2)[::-1] or back2.claim_id != cid2:
+            bad('history-stale', f'after parse + claim_id={cid2!r} the bytes still carry {back2.claim_id!r}')
+        if p.claim_id != cid or p.to_bytes() != data:
+            bad('live-object-changed', f'the object built first now reads {p.claim_id!r} (set {cid!r})')
+    if cid or case.get('then_id'):
+        res.distinct_add('nontrivial', ('purchase', how, cid, case.get('then_id')))
 
 
 # ------------------------------------------------------------------------------------------------
@@ -515,6 +739,108 @@ def sweep_cases(name):
     return out
 
 
+# ------------------------------------------------------------------------------------------------
+# histories (edit after parse / after serialise) and groups of live objects
+# ------------------------------------------------------------------------------------------------
+EDITS_COMMON = [
+    [],                                                       # no edit: the bytes must not change
+    txt_ops('title', 'second title'),
+    txt_ops('description', NONBMP) + txt_ops('thumbnail.url', 'https://t2.example/'),
+    [['append', 'tags', 'three']],
+    [['append', 'languages', ['uk', '', '']]],
+    [['append', 'locations', {'form': 'short', 'loc': {'country': 'RU'}}]],
+    [['update', '', {'title': 'second title', 'tags': ['three'], 'languages': ['uk']}]],
+    [['update', '', {'clear_tags': True, 'tags': ['only']}]],
+    [['update', '', {'clear_languages': True}]],
+    [['update', '', {'clear_locations': True, 'locations': ['BR']}]],
+    txt_ops('title', ''),                                     # emptying a field is an edit too
+]
+EDITS = {
+    'stream': [[['int', 'release_time', 2 ** 63 - 1]], [['dec', 'fee.usd', '0.25']], [['fee_update', '', [ADDR, 'btc', '0.5']]],
+               [['str', 'source.sd_hash', FH]], [['int', 'video.width', 7]], txt_ops('author', 'x'),
+               [['update', '', {'fee_currency': 'usd', 'fee_amount': '0.25', 'release_time': 2}]]],
+    'channel': [txt_ops('email', 'new@x.example'), [['str', 'public_key', PUBKEY2]], [['append', 'featured', ID_B]],
+                [['update', '', {'clear_featured': True, 'featured': [ID_A]}]]],
+    'repost': [[['str', 'reference.claim_id', ID_B]]],
+    'collection': [[['append', 'claims', 'abc123']], [['update', '', {'clear_claims': True, 'claims': [ID_B]}]]],
+}
+PRODUCT_STAGE = [{'via': 'parse', 'ops': txt_ops('title', 'second title') + [['append', 'tags', 'three']]}]
+SUPPORT_EDITS = [[], [['str', 'comment', 'second comment']], [['str', 'emoji', '\U0001F44D']], [['str', 'comment', '']],
+                 [['str', 'emoji', 'x'], ['str', 'comment', NONBMP]]]
+
+
+def history_cases():
+    """Every (type, starting claim, envelope, edit, origin of the edited object) combination, plus envelope
+    changes and two-stage histories on reduced alphabets.  Each entry is a claim or support case."""
+    out = []
+    for typ in ('stream', 'channel', 'repost', 'collection'):
+        edits = EDITS_COMMON + EDITS[typ]
+        for base in ([], rich_base(typ)):
+            for sign in SIGNS:
+                for via in ('parse', 'same'):
+                    for e in edits:
+                        out.append({'mode': 'claim', 'type': typ, 'ops': base, 'sign': sign, 'then': [{'via': via, 'ops': e}]})
+                    for e in edits[:4]:
+                        for change in ('clear', SIGNS[3] if sign != SIGNS[3] else SIGNS[1]):
+                            out.append({'mode': 'claim', 'type': typ, 'ops': base, 'sign': sign,
+                                        'then': [{'via': via, 'ops': e, 'sign': change}]})
+            for sign in SIGNS2:
+                for e1, e2 in itertools.product(edits[1:5], repeat=2):
+                    for v1, v2 in (('parse', 'parse'), ('parse', 'same'), ('same', 'parse')):
+                        out.append({'mode': 'claim', 'type': typ, 'ops': base, 'sign': sign,
+                                    'then': [{'via': v1, 'ops': e1}, {'via': v2, 'ops': e2}]})
+    first = [[], [['str', 'emoji', '\U0001F600'], ['str', 'comment', 'first comment']]]
+    for base in first:
+        for sign in SIGNS:
+            for via in ('parse', 'same'):
+                for e in SUPPORT_EDITS:
+                    for change in ('keep', 'clear', SIGNS[3] if sign != SIGNS[3] else SIGNS[1]):
+                        out.append({'mode': 'support', 'ops': base, 'sign': sign, 'then': [{'via': via, 'ops': e, 'sign': change}]})
+    return out
+
+
+def variant_ops(typ, j):
+    """j-th of three claims of one type that differ in (nearly) every field."""
+    ops = []
+    for name, alts in product_dims(typ, 'thorough')[:-1]:
+        ops += alts[(j + 1) % len(alts)]
+    return ops
+
+
+def group_cases():
+    def claim(typ, j):
+        return {'mode': 'claim', 'type': typ, 'ops': variant_ops(typ, j), 'sign': SIGNS[(j + 1) % len(SIGNS)]}
+
+    def support(j):
+        return {'mode': 'support', 'type': 'support', 'sign': SIGNS[j % len(SIGNS)],
+                'ops': [['str', 'emoji', ['\U0001F600', 'x', NONBMP][j % 3]], ['str', 'comment', f'comment {j}']]}
+
+    def purchase(j, how=None):
+        return {'mode': 'purchase', 'how': how or ('ctor', 'claim_id', 'claim_hash')[j % 3], 'claim_id': (IDS + ['00' * 20])[j % 6]}
+
+    out = []
+    for typ in ('stream', 'channel', 'repost', 'collection'):
+        members = [claim(typ, j) for j in range(3)]
+        for order in itertools.permutations(members):
+            out.append({'cases': list(order)})
+        out.append({'cases': members + [{'mode': 'claim', 'type': typ, 'ops': [], 'sign': None}]})
+        out.append({'cases': [{'mode': 'claim', 'type': typ, 'ops': [], 'sign': None}] + members})
+    for order in itertools.permutations([support(j) for j in range(3)]):
+        out.append({'cases': list(order)})
+    for how in ('ctor', 'claim_id', 'claim_hash', None):
+        for order in itertools.permutations([purchase(j, how) for j in range(3)]):
+            out.append({'cases': list(order)})
+        out.append({'cases': [purchase(j, how) for j in range(6)]})
+    mixed = [claim('stream', 0), claim('channel', 0), claim('repost', 0), claim('collection', 0), support(0), purchase(0),
+             claim('stream', 1), claim('channel', 1), claim('repost', 1), claim('collection', 1), support(1), purchase(1),
+             {'mode': 'claim', 'type': None, 'ops': [], 'sign': None}]
+    for r in range(0, len(mixed), 2):
+        out.append({'cases': mixed[r:] + mixed[:r]})
+    out.append({'cases': list(reversed(mixed))})
+    return out
+
+
+
 def lang_space(kind):
     """(count, fn index -> [lang, script, region]) for the language sweeps."""
     from vf import c16_model as M
@@ -541,13 +867,25 @@ LANG_LISTS = [['en', '', ''], ['pt', '', 'BR'], ['zh', 'Hans', 'CN'], ['es', '',
 def work_claims(item, res):
     kind = item[0]
     if kind == 'product':
-        _, typ, tier, lo, hi = item
+        _, typ, tier, lo, hi = item[:5]
         dims = product_dims(typ, tier)
         for i in range(lo, hi):
             case, picks = product_case(typ, dims, i)
+            if len(item) > 5:                  # the same product, each claim parsed and edited afterwards
+                case['then'] = PRODUCT_STAGE
             check_claim(case, res)
             if i in (lo, hi - 1) and lo == 0:
                 res.sample({'kind': 'product', 'type': typ, 'index': i, 'ops': len(case['ops']), 'signed': bool(case['sign'])})
+    elif kind == 'history':
+        _, lo, hi = item
+        for case in history_cases()[lo:hi]:
+            (check_claim if case['mode'] == 'claim' else check_support)(case, res)
+    elif kind == 'groups':
+        for g in group_cases():
+            check_group(g, res)
+        for how in ('ctor', 'claim_id', 'claim_hash'):
+            for cid, cid2 in itertools.permutations(IDS[:3] + ['00' * 20], 2):
+                check_purchase({'how': how, 'claim_id': cid, 'then_id': cid2}, res)
     elif kind == 'sweep':
         _, name, lo, hi = item
         for case in sweep_cases(name)[lo:hi]:
@@ -997,6 +1335,12 @@ def run(ctx):
         sizes[typ] = n
         step = 2048
         items += [('product', typ, tier, lo, min(lo + step, n)) for lo in range(0, n, step)]
+        if typ != 'stream' or not ctx.quick:       # edit-after-parse over the whole (2-valued) product
+            n2 = product_size(product_dims(typ, 'quick'))
+            items += [('product', typ, 'quick', lo, min(lo + step, n2), 'then') for lo in range(0, n2, step)]
+    nhist = len(history_cases())
+    items += [('history', lo, min(lo + 800, nhist)) for lo in range(0, nhist, 800)]
+    items.append(('groups',))
     sweep_sizes = {}
     for name in SWEEPS:
         n = len(sweep_cases(name))
@@ -1004,6 +1348,8 @@ def run(ctx):
         items += [('sweep', name, lo, min(lo + 1500, n)) for lo in range(0, n, 1500)]
     lang_sizes = {}
     for lk in LANG_KINDS:
+        if lk == 'script_region' and ctx.quick:
+            continue                    # thorough only (not required by the design; 105k cases)
         n, _ = lang_space(lk)
         lang_sizes[lk] = n
         items += [('langs', lk, lo, min(lo + 6000, n)) for lo in range(0, n, 6000)]
@@ -1041,12 +1387,25 @@ def run(ctx):
               'every integer field x its boundary set; every hash accessor (hex and bytes form) x 6 byte strings; '
               'LBC/BTC/USD x amount list x 5 ways of setting a fee, all cent amounts 0.00-9.99 and a k*10^j grid of '
               '8-decimal amounts; every Language alone, every Script and every Country/region (numeric ones as 3 '
-              'digits) with a language, ALL language x region, language x script and script x region pairs, all '
+              'digits) with a language, ALL language x region and language x script pairs (thorough: also ALL script x '
+              'region pairs), all '
               'lists of <= 3 tags from 5; every Country x 4 location forms, location texts and coordinate boundaries, '
               'all lists of <= 3 from 4 locations; all ordered selections of <= 3 of 6 tags; all lists of <= 3 of 5 '
               'claim ids for collections and featured lists; update() forms; supports (7x6 texts x 4 envelopes); '
               'purchases (3 ways x 7 ids); legacy: upstream\'s 6 recorded claims + 1080 generated v0 JSON documents + '
               'v1 protobuf claims for every v1 language value and a text/nsfw/fee/signature product. '
+              'Histories ("serialisation reflects the live object, whatever its origin"): for every claim type, empty '
+              'and fully populated start, 4 envelopes: the object parsed from its bytes - or the same live object after '
+              'it was serialised - is edited with each of 12-18 second op lists (setters, appends, update(), clear_*, '
+              'emptying a field, no edit), serialised again and judged against the model of all operations; envelope '
+              'kept / cleared / replaced; all two-stage histories over 4 edits x 3 origin pairs; supports 2x4x2x5x3; '
+              'purchases re-pointed after parse; the whole 2-valued product of channel/repost/collection (thorough: '
+              'stream too) with a parse+edit stage. Live-object groups ("objects do not share state"): 3 different '
+              'claims of one type in all 6 creation orders (+ an empty one first / last), 3 supports, 3 and 6 purchases '
+              'per construction route, mixed groups of 13 objects of every class in 8 orders - every object is built AND '
+              'parsed, all kept alive with the sub-object wrappers obtained early, and only after the last one exists '
+              'each is read back (bytes, all accessors via fresh and early wrappers, envelope); then Claim(), Stream(), '
+              'Channel(), Repost(), Collection(), Support(), Purchase() without arguments must be empty. '
               'URLs: every channel/stream/channel+stream URL over 8 names x 23 modifiers, with and without scheme; '
               'EVERY string of <= L tokens over 14 tokens (a g @ : # $ / 0 1 f A LF SP *), with and without scheme, '
               'decided by the reference parser; every forbidden character inserted/substituted at every position of 10 '
@@ -1056,6 +1415,7 @@ def run(ctx):
               'the targeted negative generators (rejected short strings count as evaluations only).'),
         exhaustive=True,
         bounds={'product_sizes': sizes, 'sweep_sizes': sweep_sizes, 'language_spaces': lang_sizes,
+                'history_cases': nhist, 'live_object_groups': len(group_cases()),
                 'url_short_string_max_tokens': maxlen, 'url_tokens': len(URL_TOKENS),
                 'url_grammar_segments': nseg, 'repeated_items_max': 3},
         assumptions=[
@@ -1071,7 +1431,8 @@ def run(ctx):
             'as upstream\'s published vectors record); amount_order is compared as an integer (tallied: parsed as str)',
             'legacy re-encoding into the current format is observed (tallied), not demanded',
         ],
-        expected_witnesses=['signed_envelope_round_trip', 'language_tag_with_alpha_region_starting_with_R',
+        expected_witnesses=['history_parse_then_edit_signed', 'history_parse_then_edit', 'history_same_then_edit_signed',
+                            'live_object_group_with_3_or_more_members', 'signed_envelope_round_trip', 'language_tag_with_alpha_region_starting_with_R',
                             'language_tag_with_numeric_region', 'legacy_fixture_v0-json', 'legacy_fixture_v1-protobuf',
                             'legacy_v1_signed_claim_decoded', 'url_channel_and_stream', 'url_full_40_hex_claim_id',
                             'url_with_position', 'url_hash_separator_canonicalised',
@@ -1089,13 +1450,19 @@ def replay(data):
         from lbry.schema.claim import Claim
         case = data['case']
         out = check_claim(case, res)
-        log.append(f"claim type={case['type']} ops={json.dumps(case['ops'])} sign={case.get('sign')}")
+        log.append(f"claim type={case['type']} ops={json.dumps(case['ops'])} sign={case.get('sign')}"
+                   + (f" then={json.dumps(case['then'])}" if case.get('then') else ''))
         if isinstance(out, bytes):
             log.append(f'to_bytes() = {out.hex()[:400]}{"..." if len(out) > 200 else ""} ({len(out)} bytes)')
             log.append(f'from_bytes(b).to_bytes() == b: {Claim.from_bytes(out).to_bytes() == out}')
     elif mode == 'support':
-        check_support({'set': data['case']['set'], 'sign': data['case'].get('sign')}, res)
-        log.append(f"support {data['case']['set']!r} sign={data['case'].get('sign')}")
+        check_support(data['case'], res)
+        log.append(f"support ops={data['case'].get('ops', data['case'].get('set'))!r} sign={data['case'].get('sign')} "
+                   f"then={data['case'].get('then')}")
+    elif mode == 'group':
+        check_group(data['group'], res)
+        log.append(f"group of {len(data['group']['cases'])} live objects: "
+                   + ', '.join(str(c.get('type') or c['mode']) for c in data['group']['cases']))
     elif mode == 'purchase':
         check_purchase(data['case'], res)
         log.append(f"purchase {data['case']!r}")
